@@ -373,7 +373,9 @@ pub fn replay_recorded(p: &vcore::Value, fast: &[Config], cc: &[Config]) -> Outc
         Ok(a) => a,
         Err(r) => return Outcome::skip(format!("recorded text rejected by the analyzer ({r})")),
     };
-    let configs: Vec<Config> = fast.iter().chain(cc.iter()).cloned().collect();
+    // the same engine set as when it was recorded (the signature names the engines)
+    let with_cc = p["use_cc"].as_bool().unwrap_or(false);
+    let configs: Vec<Config> = fast.iter().chain(cc.iter().filter(|_| with_cc)).cloned().collect();
     let runs: Vec<(String, bool, Result<Trace, String>)> = configs.iter().map(|c| (config_label(c), c.use_4state, run_engine(&a, c, &stim))).collect();
     let errs: Vec<(&String, &String)> = runs.iter().filter_map(|(l, _, r)| r.as_ref().err().map(|e| (l, e))).collect();
     if !errs.is_empty() && errs.len() < runs.len() || errs.iter().any(|(_, e)| e.starts_with("panic")) {
@@ -515,7 +517,7 @@ pub fn evaluate(g: &Generated, stim: &Stimulus, fast: &[Config], cc: &[Config], 
         return Outcome::fail(
             format!("engine-error:{first}/{}", fams.into_iter().collect::<Vec<_>>().join("+")),
             format!("some engines cannot run the design:\n{}\n{text}", errs.iter().map(|(l, e)| format!("  {l}: {}", e.lines().next().unwrap_or(""))).collect::<Vec<_>>().join("\n")),
-            json!({"veryl": text, "top": "Top", "root": format!("engine-error:{first}"), "stimulus": stim_json(&stim), "expected": null}),
+            json!({"veryl": text, "top": "Top", "root": format!("engine-error:{first}"), "stimulus": stim_json(&stim), "expected": null, "use_cc": use_cc}),
         );
     }
 
@@ -708,7 +710,7 @@ pub fn evaluate(g: &Generated, stim: &Stimulus, fast: &[Config], cc: &[Config], 
         msg,
         json!({"veryl": text, "top": "Top", "root": root, "stimulus": stim_json(&stim),
                "expected": rt.steps.iter().map(|r| r.iter().map(|v| if v.x { None } else { Some(format!("{:x}", v.v)) }).collect::<Vec<_>>()).collect::<Vec<_>>(),
-               "deviating": deviants, "reference_says_wrong": wrong, "culprit": culprit_text}),
+               "use_cc": use_cc, "deviating": deviants, "reference_says_wrong": wrong, "culprit": culprit_text}),
     )
 }
 
